@@ -43,16 +43,17 @@ Proof. intros H E. subst. rewrite bytes_eqb_refl in H. discriminate. Qed.
 
 (* ----- determinism ----- *)
 (* two stores denote the same Go value when they agree everywhere except for the order in which
-   the entries of the pre-image MAPS are listed *)
+   the entries of the pre-image MAPS are listed (a Go map has no order) *)
 Fixpoint lists_equiv (tbl : list slot) (la lb : list (list mentry)) : Prop :=
   match tbl, la, lb with
   | sl :: t, a :: ra, b :: rb =>
       (match sl_k sl with MS (MMap _) => Permutation a b | _ => a = b end) /\ lists_equiv t ra rb
   | _, _, _ => la = lb
   end.
-Fixpoint lists_small (tbl : list slot) (la : list (list mentry)) : Prop :=
+(* the keys of a Go map are pairwise distinct; for keys of one length that is: distinct as numbers *)
+Fixpoint lists_distinct (tbl : list slot) (la : list (list mentry)) : Prop :=
   match tbl, la with
-  | sl :: t, a :: ra => (match sl_k sl with MS (MMap _) => (length a <= 1)%nat | _ => True end) /\ lists_small t ra
+  | sl :: t, a :: ra => (match sl_k sl with MS (MMap _) => NoDup (map key_num a) | _ => True end) /\ lists_distinct t ra
   | _, _ => True
   end.
 Definition sec_equiv (tbl : list slot) (a b : sec) : Prop :=
@@ -60,75 +61,149 @@ Definition sec_equiv (tbl : list slot) (a b : sec) : Prop :=
 Definition pset_equiv (p q : pset) : Prop :=
   sec_equiv global_tbl (p_global p) (p_global q) /\
   Forall2 (sec_equiv input_tbl) (p_ins p) (p_ins q) /\ Forall2 (sec_equiv output_tbl) (p_outs p) (p_outs q).
-Definition maps_small (p : pset) : Prop :=
-  Forall (fun s => lists_small input_tbl (s_lists s)) (p_ins p) /\
-  Forall (fun s => lists_small output_tbl (s_lists s)) (p_outs p) /\ lists_small global_tbl (s_lists (p_global p)).
+Definition maps_distinct (p : pset) : Prop :=
+  Forall (fun s => lists_distinct input_tbl (s_lists s)) (p_ins p) /\
+  Forall (fun s => lists_distinct output_tbl (s_lists s)) (p_outs p) /\ lists_distinct global_tbl (s_lists (p_global p)).
 
-Lemma lists_equiv_small tbl : forall la lb, lists_equiv tbl la lb -> lists_small tbl la -> la = lb.
+(* insertion sort by key: permutation, sorted, unique *)
+Fixpoint ssorted (l : list mentry) : Prop :=
+  match l with [] => True | x :: r => (forall y, In y r -> key_num x < key_num y) /\ ssorted r end.
+
+Lemma ins_perm e l : Permutation (ins_entry e l) (e :: l).
 Proof.
-  induction tbl as [|sl t IH]; intros la lb E S; [destruct la; exact E|].
-  destruct la as [|a ra]; [exact E|]. destruct lb as [|b rb]; [exact E|].
-  cbn [lists_equiv lists_small] in E, S. destruct E as [E1 E2]. destruct S as [S1 S2].
-  f_equal; [|apply IH; assumption].
-  destruct (sl_k sl) as [k al|m]; [exact E1|]. destruct m; try exact E1.
-  destruct a as [|x [|y a]]; [apply Permutation_nil in E1; congruence | | cbn in S1; lia].
-  apply Permutation_length_1_inv in E1. congruence.
+  induction l as [|x r IH]; [reflexivity|]. cbn [ins_entry]. destruct (key_num e <? key_num x); [reflexivity|].
+  rewrite IH. apply perm_swap.
+Qed.
+Lemma sort_perm l : Permutation (sort_entries l) l.
+Proof. induction l as [|e l IH]; [reflexivity|]. cbn [sort_entries fold_right]. rewrite ins_perm. constructor. exact IH. Qed.
+
+Lemma ins_sorted e l : ssorted l -> (forall y, In y l -> key_num y <> key_num e) -> ssorted (ins_entry e l).
+Proof.
+  induction l as [|x r IH]; intros S D; [cbn; split; [intros y []|exact I]|].
+  cbn [ssorted] in S. destruct S as [Sx Sr]. cbn [ins_entry].
+  destruct (N.ltb_spec (key_num e) (key_num x)) as [L|L].
+  - cbn [ssorted]. split; [|split; assumption].
+    intros y [<-|Hy]; [exact L | pose proof (Sx y Hy); lia].
+  - assert (key_num x <> key_num e) by (apply D; left; reflexivity).
+    cbn [ssorted]. split.
+    + intros y Hy. apply (Permutation_in _ (ins_perm e r)) in Hy. destruct Hy as [<-|Hy]; [lia | apply Sx; exact Hy].
+    + apply IH; [exact Sr | intros y Hy; apply D; right; exact Hy].
+Qed.
+Lemma sort_sorted l : NoDup (map key_num l) -> ssorted (sort_entries l).
+Proof.
+  induction l as [|e l IH]; intro ND; [exact I|]. cbn [map] in ND. inversion ND as [|? ? Hn ND']; subst.
+  cbn [sort_entries fold_right]. apply ins_sorted; [apply IH; exact ND'|].
+  intros y Hy E. apply Hn. apply (Permutation_in _ (sort_perm l)) in Hy. rewrite <- E. apply in_map. exact Hy.
+Qed.
+Lemma sorted_perm_eq : forall a b, ssorted a -> ssorted b -> Permutation a b -> a = b.
+Proof.
+  induction a as [|x a IH]; intros b Sa Sb P.
+  - apply Permutation_nil in P. congruence.
+  - destruct b as [|y b]; [apply Permutation_sym, Permutation_nil in P; discriminate|].
+    cbn [ssorted] in Sa, Sb. destruct Sa as [Sx Sa]. destruct Sb as [Sy Sb].
+    assert (x = y).
+    { assert (Hx : In x (y :: b)) by (apply (Permutation_in _ P); left; reflexivity).
+      assert (Hy : In y (x :: a)) by (apply (Permutation_in _ (Permutation_sym P)); left; reflexivity).
+      destruct Hx as [E|Hx]; [congruence|]. destruct Hy as [E|Hy]; [congruence|].
+      pose proof (Sx y Hy). pose proof (Sy x Hx). lia. }
+    subst y. f_equal. apply IH; [exact Sa | exact Sb | apply (Permutation_cons_inv P)].
+Qed.
+Lemma sort_perm_unique a b : Permutation a b -> NoDup (map key_num a) -> sort_entries a = sort_entries b.
+Proof.
+  intros P ND. apply sorted_perm_eq.
+  - apply sort_sorted. exact ND.
+  - apply sort_sorted. apply (Permutation_NoDup (Permutation_map key_num P) ND).
+  - rewrite !sort_perm. exact P.
 Qed.
 
-Lemma sec_equiv_small tbl a b : sec_equiv tbl a b -> lists_small tbl (s_lists a) -> a = b.
+(* what a slot writes depends on the store only through its value / its entries as a finite map *)
+Lemma emit_equiv tbl : forall la lb, lists_equiv tbl la lb -> lists_distinct tbl la ->
+  forall k sl, nth_error tbl k = Some sl ->
+    match sl_k sl with MS m => m_emit m (nth k la []) = m_emit m (nth k lb []) | SS _ _ => True end.
 Proof.
-  intros (E1 & E2 & E3 & E4) S. apply lists_equiv_small in E2; [|exact S].
-  destruct a, b; cbn in *; subst; reflexivity.
+  induction tbl as [|s0 t IH]; intros la lb E D k sl Hk; [destruct k; discriminate|].
+  destruct la as [|a ra]; [cbn in E; subst lb; destruct (sl_k sl); auto|].
+  destruct lb as [|b rb]; [cbn in E; discriminate|].
+  cbn [lists_equiv lists_distinct] in E, D. destruct E as [E1 E2]. destruct D as [D1 D2].
+  destruct k as [|k].
+  - cbn in Hk. inversion Hk; subst s0. cbn [nth]. destruct (sl_k sl) as [|m]; [exact I|].
+    destruct m; cbn [m_emit]; try (rewrite E1; reflexivity). apply sort_perm_unique; assumption.
+  - cbn [nth_error nth] in *. apply (IH ra rb E2 D2 k sl Hk).
 Qed.
 
-Lemma forall2_equiv_small tbl : forall la lb,
-  Forall2 (sec_equiv tbl) la lb -> Forall (fun s => lists_small tbl (s_lists s)) la -> la = lb.
+Lemma emit_slots_equiv a b : s_vals a = s_vals b ->
+  forall suf i, (forall k sl, nth_error suf k = Some sl ->
+      match sl_k sl with MS m => m_emit m (list_at (i + k) a) = m_emit m (list_at (i + k) b) | SS _ _ => True end) ->
+  emit_slots i suf a = emit_slots i suf b.
 Proof.
-  induction 1 as [|a b la lb E _ IH]; intro S; [reflexivity|]. inversion S; subst.
-  f_equal; [apply (sec_equiv_small tbl); assumption | apply IH; assumption].
+  intro V. induction suf as [|sl suf IH]; intros i H; [reflexivity|].
+  cbn [emit_slots].
+  assert (E0 : emit_slot i sl a = emit_slot i sl b).
+  { unfold emit_slot, val_at. rewrite V. pose proof (H 0%nat sl eq_refl) as H0. rewrite Nat.add_0_r in H0.
+    destruct (sl_k sl); [reflexivity|]. rewrite H0. reflexivity. }
+  rewrite E0. rewrite (IH (S i)); [reflexivity|].
+  intros k s1 Hk. pose proof (H (S k) s1 Hk) as Hs. rewrite Nat.add_succ_r in Hs. exact Hs.
 Qed.
 
-(* serialization is a function of the abstract packet as long as no pre-image map has two entries *)
-Theorem ser_deterministic_partial p q : pset_equiv p q -> maps_small p -> ser_pset p = ser_pset q.
+Lemma ser_section_equiv tbl a b : sec_equiv tbl a b -> lists_distinct tbl (s_lists a) ->
+  ser_section tbl a = ser_section tbl b.
 Proof.
-  intros (Eg & Ei & Eo) (Si & So & Sg).
-  apply sec_equiv_small in Eg; [|exact Sg].
-  apply forall2_equiv_small in Ei; [|exact Si]. apply forall2_equiv_small in Eo; [|exact So].
-  destruct p, q; cbn in *; subst; reflexivity.
+  intros (V & L & P & U) D. unfold ser_section, kps_of.
+  rewrite (emit_slots_equiv a b V tbl 0), P, U; [reflexivity|].
+  intros k sl Hk. cbn [Nat.add]. unfold list_at. apply (emit_equiv tbl _ _ L D k sl Hk).
+Qed.
+Lemma ser_secs_equiv tbl : forall la lb, Forall2 (sec_equiv tbl) la lb ->
+  Forall (fun s => lists_distinct tbl (s_lists s)) la -> ser_secs tbl la = ser_secs tbl lb.
+Proof.
+  induction 1 as [|a b la lb E _ IH]; intro D; [reflexivity|]. inversion D; subst.
+  cbn [ser_secs]. rewrite (ser_section_equiv tbl a b) by assumption. rewrite IH by assumption. reflexivity.
 Qed.
 
-(* full statement (false of the code: Go map iteration order reaches the wire):
-     forall p q, pset_equiv p q -> ser_pset p = ser_pset q *)
-Definition ex_in_map (l : list mentry) : sec := ex_setl [(10%nat, l)] ex_input_min.
-Definition ex_e1 : mentry := (repeat x01 32, [x0a]).
-Definition ex_e2 : mentry := (repeat x02 32, [x0b]).
-Theorem ser_deterministic_refuted :
-  exists p q b1 b2, wf_ex p = true /\ wf_ex q = true /\ pset_equiv p q /\
-                    ser_pset p = ROk b1 /\ ser_pset q = ROk b2 /\ b1 <> b2.
+(* serialization is a function of the abstract packet: packets that differ only in the listing
+   order of their pre-image maps serialize to the same bytes *)
+Theorem ser_deterministic p q : pset_equiv p q -> maps_distinct p -> ser_pset p = ser_pset q.
 Proof.
-  exists (mk_pset (ex_global 1 0) [ex_in_map [ex_e1; ex_e2]] []),
-         (mk_pset (ex_global 1 0) [ex_in_map [ex_e2; ex_e1]] []).
-  eexists. eexists. split; [vm_compute; reflexivity|]. split; [vm_compute; reflexivity|].
-  split.
-  { split; [repeat split|]. split; [|constructor]. constructor; [|constructor].
-    unfold sec_equiv. split; [reflexivity|]. split; [|split; reflexivity].
-    cbn. repeat split; first [reflexivity | apply perm_nil | apply perm_swap]. }
-  split; [vm_compute; reflexivity|]. split; [vm_compute; reflexivity|].
-  apply neq_by_eqb. vm_compute. reflexivity.
+  intros (Eg & Ei & Eo) (Di & Do & Dg). unfold ser_pset.
+  rewrite (ser_section_equiv global_tbl _ _ Eg Dg), (ser_secs_equiv input_tbl _ _ Ei Di), (ser_secs_equiv output_tbl _ _ Eo Do).
+  reflexivity.
+Qed.
+
+(* the emitter cannot fail any more: every packet serializes *)
+Lemma emit_slots_total s : forall suf i, exists kps, emit_slots i suf s = ROk kps.
+Proof.
+  induction suf as [|sl suf IH]; intro i; [exists []; reflexivity|].
+  destruct (IH (S i)) as (kb & Eb). cbn [emit_slots]. unfold emit_slot at 1.
+  destruct (sl_k sl) as [k al|m].
+  - destruct (s_emits k al (val_at i s)); rewrite Eb; cbn [cbind]; eexists; reflexivity.
+  - rewrite Eb. cbn [cbind]. eexists; reflexivity.
+Qed.
+Lemma ser_section_total tbl s : exists bs, ser_section tbl s = ROk bs.
+Proof. unfold ser_section, kps_of. destruct (emit_slots_total s tbl 0) as (k & ->). cbn [cbind]. eexists; reflexivity. Qed.
+Lemma ser_secs_total tbl l : exists bs, ser_secs tbl l = ROk bs.
+Proof.
+  induction l as [|s l [b IH]]; [exists []; reflexivity|]. cbn [ser_secs].
+  destruct (ser_section_total tbl s) as (a & ->). rewrite IH. cbn [cbind]. eexists; reflexivity.
+Qed.
+Theorem ser_pset_total p : exists bs, ser_pset p = ROk bs.
+Proof.
+  unfold ser_pset. destruct (ser_section_total global_tbl (p_global p)) as (g & ->).
+  destruct (ser_secs_total input_tbl (p_ins p)) as (i & ->). destruct (ser_secs_total output_tbl (p_outs p)) as (o & ->).
+  cbn [cbind]. eexists; reflexivity.
 Qed.
 
 (* ----- kinds ----- *)
-Lemma map_norm_props tbl l : map s_props (map (norm_sec tbl) l) = map s_props l.
+Lemma map_norm_props tbl l : map s_props (map (norm_sec tbl) l) = map (fun s => map norm_pd (s_props s)) l.
 Proof. rewrite map_map. apply map_ext. intro a. reflexivity. Qed.
 Lemma map_norm_unks tbl l : map s_unks (map (norm_sec tbl) l) = map s_unks l.
 Proof. rewrite map_map. apply map_ext. intro a. reflexivity. Qed.
 
-(* unknown and proprietary entries of a well-formed packet come back with kind, key and value intact *)
+(* unknown and proprietary entries of a well-formed packet (proprietary ones of ANY identifier) come
+   back in their list, in order, with key and value intact; an empty Identifier reads back as "pset" *)
 Theorem kinds_preserved pk der xo canon p : wf_pset pk der xo canon p = true ->
   exists bs p', ser_pset p = ROk bs /\ parse_pset pk der xo canon bs = ROk p' /\
-    s_props (p_global p') = s_props (p_global p) /\ s_unks (p_global p') = s_unks (p_global p) /\
-    map s_props (p_ins p') = map s_props (p_ins p) /\ map s_unks (p_ins p') = map s_unks (p_ins p) /\
-    map s_props (p_outs p') = map s_props (p_outs p) /\ map s_unks (p_outs p') = map s_unks (p_outs p).
+    s_props (p_global p') = map norm_pd (s_props (p_global p)) /\ s_unks (p_global p') = s_unks (p_global p) /\
+    map s_props (p_ins p') = map (fun s => map norm_pd (s_props s)) (p_ins p) /\ map s_unks (p_ins p') = map s_unks (p_ins p) /\
+    map s_props (p_outs p') = map (fun s => map norm_pd (s_props s)) (p_outs p) /\ map s_unks (p_outs p') = map s_unks (p_outs p).
 Proof.
   intro W. destruct (pset_parse_ser pk der xo canon p W) as (bs & S & P).
   exists bs, (norm_pset p). split; [exact S|]. split; [rewrite <- (app_nil_r bs); apply P|].
@@ -136,59 +211,168 @@ Proof.
   rewrite !map_norm_props, !map_norm_unks. repeat split; reflexivity.
 Qed.
 
-(* a proprietary entry under a foreign identifier is accepted and silently dropped by the parser *)
+(* ----- closed computations (vm_compute) ----- *)
+Definition is_ok {A} (x : cres A) : bool := match x with ROk _ => true | _ => false end.
+Definition is_err {A} (x : cres A) : bool := match x with RErr => true | _ => false end.
+Definition ser_or_nil (p : pset) : bytes := match ser_pset p with ROk b => b | _ => [] end.
+(* wf, and the serialization parses back to a packet that serializes to the same bytes *)
+Definition rt_check (p : pset) : bool :=
+  wf_ex p && match ser_pset p with
+             | ROk bs => match parse_ex bs with
+                         | ROk p' => bytes_eqb (ser_or_nil p') bs && bytes_eqb (ser_or_nil (norm_pset p)) bs
+                         | _ => false end
+             | _ => false end.
+
+(* the packets that were refutation witnesses before the repairs are ordinary well-formed packets now *)
+Definition ex_height : pset := mk_pset (ex_global 1 0) [ex_set [(iHeightLock, le_enc 4 100)] ex_input_min] [].
+Definition ex_both : pset :=
+  mk_pset (ex_global 1 0) [ex_set [(iHeightLock, le_enc 4 100); (iTimeLock, le_enc 4 500000001)] ex_input_min] [].
+Definition ex_pegin : pset := mk_pset (ex_global 1 0) [ex_set [(iPeginValue, le_enc 8 5)] ex_input_min] [].
+Definition ex_in_map (l : list mentry) : sec := ex_setl [(10%nat, l)] ex_input_min.
+Definition ex_e1 : mentry := (repeat x01 32, [x0a]).
+Definition ex_e2 : mentry := (repeat x02 32, [x0b]).
+Definition ex_map12 : pset := mk_pset (ex_global 1 0) [ex_in_map [ex_e1; ex_e2]] [].
+Definition ex_map21 : pset := mk_pset (ex_global 1 0) [ex_in_map [ex_e2; ex_e1]] [].
+Definition ex_foo : bytes := [x66; x6f; x6f].
+Definition ex_foreign : pset :=
+  mk_pset (let g := ex_global 0 0 in mk_sec (s_vals g) (s_lists g)
+             [mk_pd ex_foo 0x01 [x01] [x02]; mk_pd pset_magic 0x20 [] [x03]; mk_pd [] 0x21 [x04] []] []) [] [].
+Example ex_height_rt : rt_check ex_height = true. Proof. vm_compute. reflexivity. Qed.
+Example ex_both_rt : rt_check ex_both = true. Proof. vm_compute. reflexivity. Qed.
+Example ex_pegin_rt : rt_check ex_pegin = true. Proof. vm_compute. reflexivity. Qed.
+Example ex_map12_rt : rt_check ex_map12 = true. Proof. vm_compute. reflexivity. Qed.
+Example ex_map21_rt : rt_check ex_map21 = true. Proof. vm_compute. reflexivity. Qed.
+Example ex_map_same_bytes : bytes_eqb (ser_or_nil ex_map12) (ser_or_nil ex_map21) = true. Proof. vm_compute. reflexivity. Qed.
+Example ex_foreign_rt : rt_check ex_foreign = true. Proof. vm_compute. reflexivity. Qed.
+
+(* 253 sections: the count is written as a 3-byte compact size and read back *)
+Definition ex_stream_253 : bytes :=
+  magic_sep ++ enc_kps [mk_kpair 2 [] (le_enc 4 2); mk_kpair 4 [] [xfd; xfd; x00]; mk_kpair 5 [] [x00]; mk_kpair 251 [] (le_enc 4 2)]
+            ++ [pset_sep]
+            ++ concat (repeat (enc_kps [mk_kpair 14 [] (repeat xaa 32); mk_kpair 15 [] (le_enc 4 1)] ++ [pset_sep]) 253).
+Definition count_check (bs : bytes) : bool :=
+  match parse_ex bs with
+  | ROk p => (lenL (p_ins p) =? 253) && wf_ex p && bytes_eqb (ser_or_nil p) bs
+  | _ => false end.
+Example ex_count_253 : count_check ex_stream_253 = true. Proof. vm_compute. reflexivity. Qed.
+(* a one-byte count 0xfd is no longer a count *)
+Example ex_count_byte_fd :
+  is_err (parse_ex (magic_sep ++ enc_kps [mk_kpair 2 [] (le_enc 4 2); mk_kpair 4 [] [xfd]; mk_kpair 251 [] (le_enc 4 2)] ++ [pset_sep])) = true.
+Proof. vm_compute. reflexivity. Qed.
+
+(* a proprietary entry of a foreign identifier in a stream is kept and written back unchanged *)
 Definition ex_foreign_kp : kpair := mk_kpair 252 ([x03; x66; x6f; x6f; x07] ++ [x09]) [x0a; x0b].
 Definition ex_stream (extra : list kpair) : bytes :=
   magic_sep ++ enc_kps ([mk_kpair 2 [] (le_enc 4 2); mk_kpair 4 [] [x00]; mk_kpair 5 [] [x00]; mk_kpair 251 [] (le_enc 4 2)] ++ extra)
             ++ [pset_sep].
-Theorem foreign_proprietary_dropped_refuted :
-  exists bs p bs', parse_ex bs = ROk p /\ ser_pset p = ROk bs' /\
-     s_props (p_global p) = [] /\ s_unks (p_global p) = [] /\
-     bs = ex_stream [ex_foreign_kp] /\ bs' = ex_stream [].
-Proof. eexists. eexists. eexists. vm_compute. repeat split; reflexivity. Qed.
+Definition foreign_kept_check : bool :=
+  match parse_ex (ex_stream [ex_foreign_kp]) with
+  | ROk p => match s_props (p_global p) with
+             | [pd] => bytes_eqb (pd_id pd) ex_foo && (pd_sub pd =? 7) && bytes_eqb (pd_kd pd) [x09] &&
+                       bytes_eqb (ser_or_nil p) (ex_stream [ex_foreign_kp])
+             | _ => false end
+  | _ => false end.
+Example ex_foreign_kept : foreign_kept_check = true. Proof. vm_compute. reflexivity. Qed.
 
-(* the serializer writes every ProprietaryData entry under the identifier "pset" whatever its Identifier says *)
-Theorem foreign_proprietary_relabelled_refuted :
-  exists p bs p', ser_pset p = ROk bs /\ parse_ex bs = ROk p' /\
-     map pd_id (s_props (p_global p)) = [[x66; x6f; x6f]] /\ map pd_id (s_props (p_global p')) = [pset_magic].
+(* ----- what is still outside the round-trip domain: refutation witnesses ----- *)
+(* a derivation whose path is empty (the master key itself; accepted by Updater.AddInBip32Derivation)
+   is written as four bytes and rejected by readBip32Derivation *)
+Definition ex_pubkey : bytes := x02 :: repeat x11 32.
+Definition ex_empty_path : pset :=
+  mk_pset (ex_global 1 0) [ex_setl [(6%nat, [(ex_pubkey, le_enc 4 7)])] ex_input_min] [].
+Definition reject_check (p : pset) : bool :=
+  negb (wf_ex p) && match ser_pset p with ROk bs => is_err (parse_ex bs) | _ => false end.
+Lemma reject_check_elim p : reject_check p = true -> exists bs, ser_pset p = ROk bs /\ parse_ex bs = RErr.
 Proof.
-  exists (mk_pset (let g := ex_global 0 0 in mk_sec (s_vals g) (s_lists g) [mk_pd [x66; x6f; x6f] 0x20 [x01] [x02]] []) [] []).
-  eexists. eexists. vm_compute. repeat split; reflexivity.
+  unfold reject_check. intro H. apply andb_true_iff in H as [_ H].
+  destruct (ser_pset p) as [bs| |]; try discriminate. exists bs. split; [reflexivity|].
+  destruct (parse_ex bs); try discriminate. reflexivity.
 Qed.
+Lemma empty_path_check : reject_check ex_empty_path = true. Proof. vm_compute. reflexivity. Qed.
+Theorem empty_bip32_path_refuted : exists p bs, ser_pset p = ROk bs /\ parse_ex bs = RErr.
+Proof. exists ex_empty_path. apply reject_check_elim. exact empty_path_check. Qed.
 
-(* ----- height locktime written under the time-locktime key (input.go:619) ----- *)
-Theorem height_locktime_refuted :
-  exists p bs p', ser_pset p = ROk bs /\ parse_ex bs = ROk p' /\
-     map (val_at iHeightLock) (p_ins p) = [le_enc 4 100] /\ map (val_at iTimeLock) (p_ins p) = [[]] /\
-     map (val_at iHeightLock) (p_ins p') = [[]] /\ map (val_at iTimeLock) (p_ins p') = [le_enc 4 100].
-Proof.
-  exists (mk_pset (ex_global 1 0) [ex_set [(iHeightLock, le_enc 4 100)] ex_input_min] []).
-  eexists. eexists. vm_compute. repeat split; reflexivity.
-Qed.
-(* with both locktimes set the library rejects its own serialization (duplicated time locktime) *)
-Theorem both_locktimes_refuted :
-  exists p bs, ser_pset p = ROk bs /\ parse_ex bs = RErr.
-Proof.
-  exists (mk_pset (ex_global 1 0) [ex_set [(iHeightLock, le_enc 4 100); (iTimeLock, le_enc 4 500000001)] ex_input_min] []).
-  eexists. vm_compute. split; reflexivity.
-Qed.
+(* a witness UTXO with an empty script encodes to 44 bytes; readTxOut wants 45 *)
+Definition ex_txout44 : bytes := (x01 :: repeat x33 32) ++ (x01 :: repeat x00 8) ++ [x00] ++ [x00].
+Definition ex_short_utxo : pset := mk_pset (ex_global 1 0) [ex_set [(iWitnessUtxo, ex_txout44)] ex_input_min] [].
+Lemma short_utxo_check : reject_check ex_short_utxo = true. Proof. vm_compute. reflexivity. Qed.
+Theorem short_witness_utxo_refuted : exists p bs, ser_pset p = ROk bs /\ parse_ex bs = RErr.
+Proof. exists ex_short_utxo. apply reject_check_elim. exact short_utxo_check. Qed.
 
-(* ----- peg-in value: the emitter writes into a nil slice (input.go:729) ----- *)
-Theorem pegin_value_refuted :
-  exists p, ser_pset p = RPanic /\ wf_ex (mk_pset (p_global p) [ex_input_min] []) = true /\
-            p_ins p = [ex_set [(iPeginValue, le_enc 8 5)] ex_input_min].
+(* ... and the same output followed by one stray byte (45 bytes) is accepted, re-serialized as 44
+   bytes and then rejected: parse, serialize, parse is NOT the identity on this accepted encoding *)
+Definition ex_stream_utxo45 : bytes :=
+  magic_sep ++ enc_kps [mk_kpair 2 [] (le_enc 4 2); mk_kpair 4 [] [x01]; mk_kpair 5 [] [x00]; mk_kpair 251 [] (le_enc 4 2)] ++ [pset_sep]
+            ++ enc_kps [mk_kpair 1 [] (ex_txout44 ++ [xee]); mk_kpair 14 [] (repeat xaa 32); mk_kpair 15 [] (le_enc 4 1)] ++ [pset_sep].
+Definition psp_check (bs : bytes) : bool :=
+  match parse_ex bs with
+  | ROk p => match ser_pset p with ROk bs' => is_err (parse_ex bs') | _ => false end
+  | _ => false end.
+Lemma psp_check_elim bs : psp_check bs = true ->
+  exists p bs', parse_ex bs = ROk p /\ ser_pset p = ROk bs' /\ parse_ex bs' = RErr.
 Proof.
-  exists (mk_pset (ex_global 1 0) [ex_set [(iPeginValue, le_enc 8 5)] ex_input_min] []).
-  vm_compute. repeat split; reflexivity.
+  unfold psp_check. intro H. destruct (parse_ex bs) as [p| |] eqn:P; try discriminate.
+  destruct (ser_pset p) as [bs'| |] eqn:S; try discriminate. exists p, bs'.
+  split; [reflexivity|]. split; [exact S|]. destruct (parse_ex bs'); try discriminate. reflexivity.
 Qed.
+Lemma utxo45_check : psp_check ex_stream_utxo45 = true. Proof. vm_compute. reflexivity. Qed.
+Theorem witness_utxo_trailing_refuted :
+  exists p bs', parse_ex ex_stream_utxo45 = ROk p /\ ser_pset p = ROk bs' /\ parse_ex bs' = RErr.
+Proof. exact (psp_check_elim ex_stream_utxo45 utxo45_check). Qed.
 
-(* ----- one-byte counts: 253 sections are accepted on parse (count byte 0xfd) but the re-serialization
-   writes the count as a 3-byte compact size, which the parser rejects ----- *)
-Definition ex_stream_253 : bytes :=
-  magic_sep ++ enc_kps [mk_kpair 2 [] (le_enc 4 2); mk_kpair 4 [] [xfd]; mk_kpair 5 [] [x00]; mk_kpair 251 [] (le_enc 4 2)]
-            ++ [pset_sep]
-            ++ concat (repeat (enc_kps [mk_kpair 14 [] (repeat xaa 32); mk_kpair 15 [] (le_enc 4 1)] ++ [pset_sep]) 253).
-Theorem count_253_refuted :
-  exists p bs', parse_ex ex_stream_253 = ROk p /\ lenL (p_ins p) = 253 /\
-                ser_pset p = ROk bs' /\ parse_ex bs' = RErr.
-Proof. eexists. eexists. vm_compute. repeat split; reflexivity. Qed.
+(* ================= F. ties to the constants regenerated from /repo ================= *)
+From GE Require Import Gen.PsetV2Consts Gen.PsetV2GlobalConsts Gen.PsetV2InputConsts Gen.PsetV2OutputConsts.
+Open Scope N_scope.
+
+Definition key_of (tbl : list slot) (i : nat) : option keyid := option_map sl_dkey (nth_error tbl i).
+Definition mismatched (tbl : list slot) : list keyid :=
+  map sl_dkey (filter (fun sl => negb (keyid_eqb (sl_ekey sl) (sl_dkey sl))) tbl).
+
+(* magic, separator, key-length guard and proprietary marker are today's source constants; per section
+   the decode labels are pairwise distinct one-byte keys; the emit table and the decode table use the
+   same constant for every field; the positions the sanity checks read
+   are the fields they name *)
+Definition pset_tables_tied : Prop :=
+  pset_magic = [x70; x73; x65; x74] /\ pset_sep = x00 /\ maxKeyLen = 10000 /\ PsetProprietary = 252 /\
+  tbl_ok global_tbl = true /\ tbl_ok input_tbl = true /\ tbl_ok output_tbl = true /\
+  mismatched global_tbl = [] /\ mismatched output_tbl = [] /\
+  mismatched input_tbl = [] /\
+  key_of global_tbl gXpubs = Some (kS g_GlobalXpub) /\ key_of global_tbl gTxVersion = Some (kS g_GlobalTxVersion) /\
+  key_of global_tbl gInputCount = Some (kS g_GlobalInputCount) /\ key_of global_tbl gOutputCount = Some (kS g_GlobalOutputCount) /\
+  key_of global_tbl gTxModifiable = Some (kS g_GlobalTxModifiable) /\ key_of global_tbl gScalars = Some (kP g_GlobalScalar) /\
+  key_of global_tbl gVersion = Some (kS g_GlobalVersion) /\ key_of global_tbl gModifiable = Some (kP g_GlobalModifiable) /\
+  key_of input_tbl iWitnessUtxo = Some (kS g_InputWitnessUtxo) /\ key_of input_tbl iWitnessScript = Some (kS g_InputWitnessScript) /\
+  key_of input_tbl iFinalScriptWitness = Some (kS g_InputFinalScriptwitness) /\ key_of input_tbl iPreviousTxid = Some (kS g_InputPreviousTxid) /\
+  key_of input_tbl iTimeLock = Some (kS g_InputRequiredTimeLocktime) /\ key_of input_tbl iHeightLock = Some (kS g_InputRequiredHeightLocktime) /\
+  key_of input_tbl iIssuanceValue = Some (kP g_InputIssuanceValue) /\ key_of input_tbl iIssuanceValueCommitment = Some (kP g_InputIssuanceValueCommitment) /\
+  key_of input_tbl iPeginValue = Some (kP g_InputPeginValue) /\
+  key_of input_tbl iIssuanceInflationKeys = Some (kP g_InputIssuanceInflationKeys) /\
+  key_of input_tbl iIssuanceInflationKeysCommitment = Some (kP g_InputIssuanceInflationKeysCommitment) /\
+  key_of input_tbl iIssuanceBlindValueProof = Some (kP g_InputIssuanceBlindValueProof) /\
+  key_of input_tbl iIssuanceBlindInflationKeysProof = Some (kP g_InputIssuanceBlindInflationKeysProof) /\
+  key_of input_tbl iExplicitValue = Some (kP g_InputExplicitValue) /\ key_of input_tbl iValueProof = Some (kP g_InputValueProof) /\
+  key_of input_tbl iExplicitAsset = Some (kP g_InputExplicitAsset) /\ key_of input_tbl iAssetProof = Some (kP g_InputAssetProof) /\
+  key_of input_tbl iTapKeySig = Some (kS g_InputTapKeySig) /\ key_of input_tbl iTapScriptSig = Some (kS g_InputTapScriptSig) /\
+  key_of input_tbl iTapLeafScript = Some (kS g_InputTapLeafScript) /\ key_of input_tbl iTapBip32 = Some (kS g_InputTapBip32Derivation) /\
+  key_of input_tbl iTapInternalKey = Some (kS g_InputTapInternalKey) /\ key_of input_tbl iTapMerkleRoot = Some (kS g_InputTapMerkleRoot) /\
+  key_of output_tbl oValue = Some (kS g_OutputAmount) /\ key_of output_tbl oValueCommitment = Some (kP g_OutputValueCommitment) /\
+  key_of output_tbl oAssetCommitment = Some (kP g_OutputAssetCommitment) /\ key_of output_tbl oAsset = Some (kP g_OutputAsset) /\
+  key_of output_tbl oValueRangeproof = Some (kP g_OutputValueRangeproof) /\
+  key_of output_tbl oAssetSurjectionProof = Some (kP g_OutputAssetSurjectionProof) /\
+  key_of output_tbl oBlindingPubkey = Some (kP g_OutputBlindingPubkey) /\ key_of output_tbl oEcdhPubkey = Some (kP g_OutputEcdhPubkey) /\
+  key_of output_tbl oBlinderIndex = Some (kP g_OutputBlinderIndex) /\ key_of output_tbl oBlindValueProof = Some (kP g_OutputBlindValueProof) /\
+  key_of output_tbl oBlindAssetProof = Some (kP g_OutputBlindAssetProof).
+Lemma pset_tables_tied_holds : pset_tables_tied.
+Proof. unfold pset_tables_tied. repeat split; vm_compute; reflexivity. Qed.
+
+(* ================= G. parse, serialize, parse ================= *)
+(* full statement (false, see witness_utxo_trailing_refuted):
+     forall bs p, parse_pset bs = ROk p -> exists bs', ser_pset p = ROk bs' /\ parse_pset bs' = ROk (norm_pset p)
+   proved: the statement for accepted encodings whose packet lies in the round-trip domain. *)
+Theorem pset_parse_ser_parse_partial pk der xo canon bs p :
+  parse_pset pk der xo canon bs = ROk p -> wf_pset pk der xo canon p = true ->
+  exists bs', ser_pset p = ROk bs' /\ parse_pset pk der xo canon bs' = ROk (norm_pset p).
+Proof.
+  intros _ W. destruct (pset_parse_ser pk der xo canon p W) as (bs' & S & P).
+  exists bs'. split; [exact S|]. rewrite <- (app_nil_r bs'). apply P.
+Qed.
